@@ -740,6 +740,13 @@ func runC04(r *Rand, tier string, o *Out) {
 		}
 		o.Count("scenario:caller-leaves-in-the-middle")
 	}
+	// a saturated connection: a post and a cancel behind refused calls
+	for i := 0; i < 2; i++ {
+		if out := o.Do("P", "sv.saturate", true); out != "ok" {
+			o.Fail("a saturated connection: "+strings.SplitN(strings.TrimPrefix(out, "fail:"), " ", 2)[0], "sv.saturate => "+out)
+		}
+		o.Count("scenario:saturated-connection")
+	}
 	// a result that does not fit into a message
 	if out := o.Do("P", "sv.bigreply", true); out != "ok" {
 		o.Fail("a call whose result does not fit into a message: "+strings.SplitN(strings.TrimPrefix(out, "fail:"), ":", 2)[0], "sv.bigreply => "+out)
